@@ -32,41 +32,44 @@ func vc12Seeds(dir string, rng *vh.Rng) ([]c12h.Seed, error) {
 				key, val = []byte("epoch"), []byte("test")
 			}
 			if err := meta.Add(key, val); err != nil {
-				return nil, err
+				return seeds, err
 			}
 		}
 		path := fmt.Sprintf("%s/manifest%d", dir, i)
 		_ = os.Remove(path)
 		m, err := NewManifest(path, meta)
 		if err != nil {
-			return nil, err
+			return seeds, err
 		}
 		for p := 0; p < sh.nputs; p++ {
 			if err := m.Put(rng.U64(), rng.U64()); err != nil {
-				return nil, err
+				return seeds, err
 			}
 		}
 		if err := m.Close(); err != nil {
-			return nil, err
+			return seeds, err
 		}
 		data, err := os.ReadFile(path)
 		if err != nil {
-			return nil, err
+			return seeds, err
 		}
 		metaLen := len(meta.Bytes())
 		if len(data) != 16+metaLen+16*sh.nputs {
-			return nil, fmt.Errorf("seed %d: unexpected file size %d", i, len(data))
+			c12h.SkipSeed(fmt.Sprintf("seed %d", i), fmt.Sprintf("unexpected file size %d", len(data)))
+			continue
 		}
 		// the valid file must open and give back what was put
 		m2, err := NewManifest(path, indexmeta.Meta{})
 		if err != nil {
-			return nil, fmt.Errorf("seed %d does not open: %v", i, err)
+			c12h.SkipSeed(fmt.Sprintf("seed %d", i), fmt.Sprintf("does not open: %v", err))
+			continue
 		}
 		all, err := m2.ReadAll()
-		if err != nil || len(all) != sh.nputs {
-			return nil, fmt.Errorf("seed %d: ReadAll gave %d values, %v", i, len(all), err)
-		}
 		_ = m2.Close()
+		if err != nil || len(all) != sh.nputs {
+			c12h.SkipSeed(fmt.Sprintf("seed %d", i), fmt.Sprintf("ReadAll gave %d values, %v", len(all), err))
+			continue
+		}
 		seeds = append(seeds, c12h.Seed{Name: fmt.Sprintf("manifest-m%d-p%d", sh.nmeta, sh.nputs), Data: data,
 			Nums: []uint64{uint64(16 + metaLen)}})
 	}
